@@ -94,9 +94,13 @@ def check_thresh_perfect(rep, run: Run, D: Blocks):
         flip = {"<": ">", "<=": ">=", ">": "<", ">=": "<=", "==": "==", "!=": "!="}
         # vectorised edge predicate: the whole cost matrix against the candidate (`D <= d`)
         whole = None
-        if getattr(lhs, "uid", None) == D.uid and lhs is not None and not isinstance(lhs, Sc) and re_ is not None:
+        def of_matrix(v):
+            # the matrix itself, or a row / column / slice of it (densified: its entries are the matrix's entries)
+            return v is not None and not isinstance(v, Sc) and (getattr(v, "uid", None) == D.uid or (
+                isinstance(v, Arr) and v.elem == elems))
+        if of_matrix(lhs) and re_ is not None:
             whole = (re_, op)
-        elif getattr(rhs, "uid", None) == D.uid and rhs is not None and not isinstance(rhs, Sc) and le is not None:
+        elif of_matrix(rhs) and le is not None:
             whole = (le, flip[op])
         if whole is not None:
             y, o = whole
@@ -228,16 +232,7 @@ def check_bisect(rep, run: Run, D: Blocks):
     if probe is None:
         rep.unmodelled("BN-BISECT", fi, w, "probe element of the candidate array not found")
         return
-    # the feasibility branch
-    branch = None
-    for n in w.body:
-        if isinstance(n, ast.If) and any(isinstance(c, ast.Call) and isinstance(c.func, ast.Name) and c.func.id == "len"
-                                         for c in ast.walk(n.test)):
-            branch = n
-    if branch is None:
-        rep.unmodelled("BN-BISECT", fi, w, "feasibility branch not found in the search loop")
-        return
-
+    # the feasibility branch: the `if` of the loop body whose arms re-bind the candidate array to a slice of itself
     def narrowing(body):
         for st in body:
             if isinstance(st, ast.Assign) and isinstance(st.targets[0], ast.Name) and st.targets[0].id == cand \
@@ -245,6 +240,11 @@ def check_bisect(rep, run: Run, D: Blocks):
                 return st
         return None
 
+    cands_br = [n for n in w.body if isinstance(n, ast.If) and (narrowing(n.body) is not None or narrowing(n.orelse) is not None)]
+    if len(cands_br) != 1:
+        rep.unmodelled("BN-BISECT", fi, w, f"feasibility branch not found in the search loop ({len(cands_br)} candidates)")
+        return
+    branch = cands_br[0]
     ok_arm, fail_arm = narrowing(branch.body), narrowing(branch.orelse)
     if ok_arm is None or fail_arm is None:
         rep.refuted("BN-BISECT", fi, branch, "one arm of the feasibility branch does not narrow the candidate array: "
